@@ -316,3 +316,38 @@ Qed.
 
 Theorem trace_length : forall h s, length (trace h s) = length h.
 Proof. induction h as [|x h IH]; intros s; [reflexivity|]. cbn [trace length]. rewrite IH. reflexivity. Qed.
+
+(* ================================================================== round 6: the hypothesis `ready s` is discharged for every reachable state *)
+Definition reachable (s : state) : Prop := exists h, s = run h state0.
+
+Lemma reachable_ready : forall s, reachable s -> ready s = true.
+Proof. intros s [h E]. subst. apply ready_run. reflexivity. Qed.
+
+Lemma reachable_step : forall x s, reachable s -> reachable (do_step x s).
+Proof. intros x s [h E]. exists (h ++ [x]). subst. rewrite run_app. reflexivity. Qed.
+
+Lemma reachable_run : forall h s, reachable s -> reachable (run h s).
+Proof. intros h s [h0 E]. exists (h0 ++ h). subst. rewrite run_app. reflexivity. Qed.
+
+(* from the start: ANY script that ends in a reset-like step leads to the fresh core -- no side condition at all *)
+Theorem fresh_equiv_from_start : forall h r, reset_like r = true -> s_core (run (h ++ [r]) state0) = core0.
+Proof. intros h r Hr. apply fresh_equiv; [reflexivity | exact Hr]. Qed.
+
+Theorem any_step_after_reset_from_start : forall h r n x, reset_like r = true -> forallb neutral n = true ->
+  s_core (do_step x (run (h ++ r :: n) state0)) = s_core (do_step x state0).
+Proof. intros h r n x Hr Hn. apply any_step_after_reset_equals_fresh; [reflexivity | exact Hr | exact Hn]. Qed.
+
+(* and for every reachable state *)
+Theorem fresh_equiv_reachable : forall s h r, reachable s -> reset_like r = true -> s_core (run (h ++ [r]) s) = core0.
+Proof. intros s h r Hs Hr. apply fresh_equiv; [apply reachable_ready; exact Hs | exact Hr]. Qed.
+
+(* completeness direction: a step that is NOT reset-like does not in general lead to the fresh core (the reset is necessary) *)
+Example non_reset_does_not_clear :
+  s_core (run [SProg [PLabels 1] 0 false; SDetachAttach] state0) <> core0 /\
+  s_core (run [SProg [PLabels 1] 0 false; SNewEmitter] state0) <> core0 /\
+  s_core (run [SProg [PLabels 1] 0 false; SLogger true] state0) <> core0.
+Proof. repeat split; discriminate. Qed.
+
+(* logger consistency holds in every reachable state (the invariant's hypothesis discharged) *)
+Theorem logger_consistent_reachable : forall s, reachable s -> logger_consistent s.
+Proof. intros s [h E]. subst. apply logger_consistent_run. reflexivity. Qed.
